@@ -83,6 +83,10 @@ RecConds == {Node("LESSER", <<Node("CARD", <<La>>), IntLit(2)>>), Node("EQUAL", 
 SeedRec == {Node("REC_SHORT", <<La, i, b>>) : i \in D0, b \in RecBodies}
       \cup {Node("REC_FULL", <<La, i, cnd, b>>) : i \in {Glob("X1"), Empty, IntLit(1), Glob("S2")}, cnd \in RecConds, b \in RecBodies}
       \cup {Node("REC_SHORT", <<TupAB, i, b>>) : i \in {Node("TUPLE", <<Glob("X1"), IntLit(1)>>), Glob("S1")}, b \in {Node("TUPLE", <<La, Lb>>), Node("TUPLE", <<La, Node("PLUS", <<Lb, IntLit(1)>>)>>), La}}
+      \* full form with a tuple declaration: the condition and the step both use the components
+      \cup {Node("REC_FULL", <<TupAB, Node("TUPLE", <<IntLit(1), i>>), cnd, b>>) :
+               i \in {Glob("X1"), Empty}, cnd \in {Node("LESSER", <<La, IntLit(3)>>), Node("LESSER", <<Node("CARD", <<Lb>>), IntLit(2)>>), Node("EQUAL", <<IntLit(1), IntLit(1)>>)},
+               b \in {Node("TUPLE", <<Node("PLUS", <<La, IntLit(1)>>), Lb>>), Node("TUPLE", <<La, Node("UNION", <<Lb, Glob("X1")>>)>>), Node("TUPLE", <<La, Lb>>)}}
       \* empty-set components whose type is deduced only after several rounds (each round fixes one more component)
       \cup {Node("REC_SHORT", <<Node("TUPLEDECL", <<La, Lb, Lc>>), Node("TUPLE", <<x, y, Glob("X1")>>), b>>) :
                x \in {Empty, Glob("X1")}, y \in {Empty, Glob("S2")},
